@@ -460,9 +460,22 @@ class Engine(DynMixin, ExprMixin, ModelMixin, BuiltinMixin, MAMixin):
 
     def st_Try(self, node, st):
         if node.finalbody:
-            raise Unsupported("try/finally at line %d" % node.lineno)
+            # try / except / else / finally: whatever way the protected part ends, the finally block runs next; if it ends
+            # normally the pending outcome (value returned, exception raised, break / continue) resumes, otherwise its own
+            # outcome replaces it
+            for st1, out in self._try_core(node, st):
+                for st2, fout in self.exec_block(node.finalbody, st1):
+                    if fout[0] == "normal":
+                        yield st2, out
+                    else:
+                        yield st2, fout
+            return
+        for r in self._try_core(node, st):
+            yield r
+
+    def _try_core(self, node, st):
         for st1, out in self.exec_block(node.body, st):
-            if out[0] == "raise":
+            if out[0] == "raise" and node.handlers:
                 for r in self._handle(node, st1, out[1]):
                     yield r
             elif out[0] == "normal" and node.orelse:
